@@ -27,6 +27,8 @@ pub mod pae;
 pub mod paserk;
 pub mod tokens;
 pub mod validation;
+#[cfg(paseto_verif)]
+pub mod verif;
 pub mod version;
 
 use alloc::boxed::Box;
